@@ -390,7 +390,11 @@ type StrV struct {
 
 type TupleV []Value
 type OpaqueV struct{ Why string }
-type FuncV struct{ Fn *ssa.Function }
+// FuncV: a function value; Bind holds the captured values of a closure (bound receiver of a method value).
+type FuncV struct {
+	Fn   *ssa.Function
+	Bind []Value
+}
 type NilV struct{}
 
 // ErrV: an error value whose nil-ness is a bit term (Nil = 1: the error is nil).
@@ -447,6 +451,10 @@ type Interp struct {
 	// ReadOnlyTables names the global objects ("global:sr") that may be read at a symbolic index;
 	// such a read is an uninterpreted function of the index bits (opApp).
 	ReadOnlyTables map[string]bool
+	// CheckBounds: an index at a concrete position outside a slice of known length (a run-time
+	// panic on that path) leaves the modelled fragment instead of reading a fresh cell.
+	CheckBounds bool
+	pendingBind []Value // captured values for the closure about to be entered
 }
 
 func NewInterp(w *World) *Interp {
@@ -792,6 +800,12 @@ func (it *Interp) Call(fn *ssa.Function, args []Value, st *state, depth int) Val
 			st.regs[p] = args[i]
 		}
 	}
+	for i, fv := range fn.FreeVars {
+		if i < len(it.pendingBind) {
+			st.regs[fv] = it.pendingBind[i]
+		}
+	}
+	it.pendingBind = nil
 	res := it.run(fn, fn.Blocks[0], nil, nil, st, depth)
 	st.mem = res.st.mem
 	st.regs = saved
@@ -1192,7 +1206,7 @@ func (it *Interp) val(st *state, v ssa.Value) Value {
 		}
 		return Ptr{Obj: o}
 	case *ssa.Function:
-		return FuncV{x}
+		return FuncV{Fn: x}
 	case *ssa.Builtin:
 		return OpaqueV{"builtin"}
 	}
@@ -1413,6 +1427,9 @@ func (it *Interp) step(st *state, ins ssa.Instruction, depth int) {
 				st.regs[x] = OpaqueV{"nil slice"}
 				return
 			}
+			if it.CheckBounds && b.Len >= 0 && (idx < 0 || idx >= b.Len) {
+				it.unsup("index %d is out of range for a slice of %d elements in %s (run-time panic)", idx, b.Len, x.Parent().String())
+			}
 			st.regs[x] = Ptr{Obj: b.Obj, Path: b.Path + fmt.Sprintf("[%d]", b.Lo+idx)}
 		default:
 			it.unsup("index of unsupported value in %s", x.Parent().String())
@@ -1552,6 +1569,13 @@ func (it *Interp) step(st *state, ins ssa.Instruction, depth int) {
 		}
 	case *ssa.MakeInterface:
 		st.regs[x] = it.val(st, x.X)
+	case *ssa.MakeClosure:
+		fv := FuncV{}
+		fv.Fn, _ = x.Fn.(*ssa.Function)
+		for _, b := range x.Bindings {
+			fv.Bind = append(fv.Bind, it.val(st, b))
+		}
+		st.regs[x] = fv
 	case *ssa.Phi:
 		// handled by run
 	case *ssa.Lookup:
@@ -1642,6 +1666,9 @@ func (it *Interp) slice(st *state, x *ssa.Slice) Value {
 				return SliceV{Obj: b.Obj, Path: b.Path, Lo: b.Lo + lo, Len: -1}
 			}
 			hi = b.Len
+		}
+		if it.CheckBounds && hi >= 0 && lo > hi {
+			it.unsup("slice bounds [%d:%d] are out of order in %s (run-time panic)", lo, hi, x.Parent().String())
 		}
 		if hi == -2 {
 			return SliceV{Obj: b.Obj, Path: b.Path, Lo: b.Lo + lo, Len: -1}
@@ -1812,6 +1839,15 @@ func (it *Interp) binop(x *ssa.BinOp, a, b Value) Value {
 		// pointer / nil comparisons
 		switch x.Op {
 		case token.EQL, token.NEQ:
+			if _, isAgg := a.(AggV); isAgg {
+				// struct / array values: equal iff all their cells are
+				if n, ok := it.valEq(a, b); ok {
+					if x.Op == token.NEQ {
+						n = it.T.Not(n)
+					}
+					return BV{W: 1, B: []*Node{n}}
+				}
+			}
 			_, an := a.(NilV)
 			_, bn := b.(NilV)
 			if sa, ok := a.(SliceV); ok && sa.Nil && sa.Obj == nil {
@@ -2298,6 +2334,13 @@ func (it *Interp) call(st *state, x *ssa.Call, c *ssa.CallCommon, depth int) Val
 		}
 	}
 	callee := c.StaticCallee()
+	var bind []Value
+	if callee == nil && !c.IsInvoke() {
+		// a call through a function value that resolves to one function (closure or method value)
+		if fv, ok := it.val(st, c.Value).(FuncV); ok && fv.Fn != nil {
+			callee, bind = fv.Fn, fv.Bind
+		}
+	}
 	if callee == nil {
 		it.unsup("dynamic call in %s", x.Parent().String())
 		return OpaqueV{"dynamic call"}
@@ -2320,6 +2363,12 @@ func (it *Interp) call(st *state, x *ssa.Call, c *ssa.CallCommon, depth int) Val
 		return v
 	}
 	if callee.Pkg != nil && IsRepoPkg(callee.Pkg.Pkg) && callee.Blocks != nil {
+		it.pendingBind = bind
+		return it.Call(callee, args, st, depth+1)
+	}
+	if callee.Pkg == nil && callee.Synthetic != "" && callee.Blocks != nil && callee.Object() != nil && callee.Object().Pkg() != nil && IsRepoPkg(callee.Object().Pkg()) {
+		// bound-method / thunk wrapper of a repository method
+		it.pendingBind = bind
 		return it.Call(callee, args, st, depth+1)
 	}
 	it.unsup("call to unmodelled function %s", name)
@@ -2333,6 +2382,107 @@ func (it *Interp) call(st *state, x *ssa.Call, c *ssa.CallCommon, depth int) Val
 }
 
 func (v BV) signed() BV { v.Signed = true; return v }
+
+// valEq: the bit term of `a == b` for comparable values (integers, strings of known length,
+// pointers, nil, and structs / arrays of those); ok=false when it is not decided.
+func (it *Interp) valEq(a, b Value) (*Node, bool) {
+	b2n := func(c bool) *Node {
+		if c {
+			return it.T.one
+		}
+		return it.T.zero
+	}
+	switch x := a.(type) {
+	case BV:
+		y, ok := b.(BV)
+		if !ok || x.W != y.W || x.Hex != nil || y.Hex != nil || x.HasTop() || y.HasTop() {
+			return nil, false
+		}
+		all := it.T.one
+		for i := range x.B {
+			all = it.T.And(all, it.T.Not(it.T.Xor(x.B[i], y.B[i])))
+		}
+		return all, true
+	case AggV:
+		y, ok := b.(AggV)
+		if !ok || len(x.Cells) != len(y.Cells) {
+			return nil, false
+		}
+		keys := make([]string, 0, len(x.Cells))
+		for k := range x.Cells {
+			keys = append(keys, k)
+		}
+		sort.Strings(keys)
+		all := it.T.one
+		for _, k := range keys {
+			yv, ok := y.Cells[k]
+			if !ok {
+				return nil, false
+			}
+			n, ok := it.valEq(x.Cells[k], yv)
+			if !ok {
+				return nil, false
+			}
+			all = it.T.And(all, n)
+		}
+		return all, true
+	case NilV:
+		switch y := b.(type) {
+		case NilV:
+			return it.T.one, true
+		case Ptr, HandleV:
+			return it.T.zero, true
+		case ErrV:
+			return y.Nil, true
+		}
+	case Ptr:
+		switch y := b.(type) {
+		case NilV:
+			return it.T.zero, true
+		case Ptr:
+			if x.Sym == nil && y.Sym == nil {
+				return b2n(x == y), true
+			}
+		}
+	case HandleV:
+		switch y := b.(type) {
+		case NilV:
+			return it.T.zero, true
+		case HandleV:
+			return b2n(x == y), true
+		}
+	case ErrV:
+		if _, ok := b.(NilV); ok {
+			return x.Nil, true
+		}
+	case StrV:
+		y, ok := b.(StrV)
+		if !ok {
+			return nil, false
+		}
+		if x.Known && y.Known {
+			return b2n(x.S == y.S), true
+		}
+		ca, okA := toCharsOf(it, x)
+		cb, okB := toCharsOf(it, y)
+		if !okA || !okB {
+			return nil, false
+		}
+		if len(ca) != len(cb) {
+			return it.T.zero, true
+		}
+		all := it.T.one
+		for i := range ca {
+			n, ok := it.valEq(BV{W: 8, B: ca[i].B, Hex: ca[i].Hex}, BV{W: 8, B: cb[i].B, Hex: cb[i].Hex})
+			if !ok {
+				return nil, false
+			}
+			all = it.T.And(all, n)
+		}
+		return all, true
+	}
+	return nil, false
+}
 
 func (it *Interp) sliceElemPtr(s SliceV, i int) Ptr {
 	return Ptr{Obj: s.Obj, Path: s.Path + fmt.Sprintf("[%d]", s.Lo+i)}
@@ -2470,6 +2620,17 @@ func (it *Interp) stdModel(st *state, name string, c *ssa.CallCommon, args []Val
 		v, ok := it.load(st, it.sliceElemPtr(s, i), types.Typ[types.Uint8]).(BV)
 		return v, ok
 	}
+	little := strings.HasPrefix(name, "(encoding/binary.littleEndian).")
+	if little {
+		name = "(encoding/binary.bigEndian)." + strings.TrimPrefix(name, "(encoding/binary.littleEndian).")
+	}
+	// octet i of an n-octet word sits at bit 8*pos(i): most significant first for big endian
+	pos := func(n, i int) int {
+		if little {
+			return i
+		}
+		return n - 1 - i
+	}
 	switch name {
 	case "(encoding/binary.bigEndian).Uint16", "(encoding/binary.bigEndian).Uint32", "(encoding/binary.bigEndian).Uint64":
 		n := map[string]int{"16": 2, "32": 4, "64": 8}[name[len(name)-2:]]
@@ -2485,7 +2646,7 @@ func (it *Interp) stdModel(st *state, name string, c *ssa.CallCommon, args []Val
 				return it.topBV(8 * n), true
 			}
 			for k := 0; k < 8; k++ {
-				r.B[8*(n-1-i)+k] = b.B[k]
+				r.B[8*pos(n, i)+k] = b.B[k]
 			}
 		}
 		return r, true
@@ -2499,7 +2660,7 @@ func (it *Interp) stdModel(st *state, name string, c *ssa.CallCommon, args []Val
 		for i := 0; i < n; i++ {
 			b := BV{W: 8, B: make([]*Node, 8)}
 			for k := 0; k < 8; k++ {
-				b.B[k] = v.B[8*(n-1-i)+k]
+				b.B[k] = v.B[8*pos(n, i)+k]
 			}
 			it.store(st, it.sliceElemPtr(s, i), b)
 		}
